@@ -1,7 +1,7 @@
 /-
   vd_c03 — replays the C03 harness lines through the model, compares observations (events, executed
   commands, bookkeeping attributes) and evaluates the specification checkers on the implementation's own
-  trace.  Line formats: see harness/c03.cpp.
+  trace.  Line formats: corpus/C03/PROTOCOL.txt (summary in harness/c03.cpp).
 -/
 import IcingaModel.Common.Proto
 import IcingaModel.C03.Model
